@@ -2,6 +2,7 @@ import Drv.Util
 import Drv.ParMap
 import Drv.Names
 import Drv.Key
+import Drv.Store
 /-! JSON-lines driver over the executable model: one request per line in, one reply per line out. -/
 open Lean
 
@@ -11,6 +12,7 @@ def dispatch (j : Json) : Drv.R Json := do
   | "parmap" => Drv.ParMap.handle j
   | "names" => Drv.Names.handle j
   | "key" => Drv.Key.handle j
+  | "store" => Drv.Store.handle j
   | _ => throw "bad_op"
 
 partial def loop (h : IO.FS.Stream) (out : IO.FS.Stream) : IO Unit := do
